@@ -77,7 +77,7 @@ CLAIMED["C07"] = ("server", "5/C07, 4.2",
     SRV_NOTE)
 CLAIMED["C06"] = ("server", "5/C06, 4.2, 4.3",
     "TLA+ specs Worker.tla (worker side) and ServerStop.tla (protocol across command loop, accept thread, workers) model-checked by TLC incl. liveness under fairness and NEG variants; worker-side paths replayed deterministically on the real ServerWorker under virtual time and judged by TLC (WorkerTrace.tla); end-to-end scenarios on a real Server (real threads, sockets, OS signals in a child process) recorded with a global sequence number and judged by TLC (ServerStopTrace.tla)",
-    "TLC explores every interleaving of stop commands (handle and signal kinds, repeated), server command-loop steps, accept-thread exit, worker replies, ticks and connection completions (0..3 per worker, 1..2 workers) (the exiting accept thread closes the workers' queues: WorkerQueueClosed) and checks graceful-waits, no connection torn down during a graceful stop before the timeout (C06_GracefulLetsFinish; variant WakeAcceptFirst = defect F8 rejected), no-dispatch-after-completion, signal mapping and, under fairness, that every stop future and the Server future resolve; the worker's reply value/time and shutdown drain are checked on the real worker future for every model path in virtual time; real-thread runs (graceful/forced, timeout, second stop, dropped future, paused, SIGTERM/SIGINT/SIGQUIT, the server thread held between the two halves of the stop handler) are judged by TLC on recorded events incl. service futures dropped unfinished. ServerHandles.tla: the server's own handle vector across worker replacements (Stop is sent through it) - model-checked, observed through hook H8 after every replacement in end-to-end scenarios with worker deaths before the stop; worker threads blocked by a non-yielding handler; the listener must be closed at completion (a client connecting at the instant the stop future resolves is refused); stop racing new connections; stop issued after completion; shutdown_timeout of 2 s / 3 s reached on the real clock; the worker thread stalled across shutdown ticks; the server on a plain Tokio runtime and with system_exit.",
+    "TLC explores every interleaving of stop commands (handle and signal kinds, repeated), server command-loop steps, accept-thread exit, worker replies, ticks and connection completions (0..3 per worker, 1..2 workers) (the exiting accept thread closes the workers' queues: WorkerQueueClosed) and checks graceful-waits, no connection torn down during a graceful stop before the timeout (C06_GracefulLetsFinish; variants WakeAcceptFirst = defect F8 and MidPollIgnoresStop = defect F9 rejected; a stop that arrives while a worker is inside a Service::call is an end-to-end scenario), no-dispatch-after-completion, signal mapping and, under fairness, that every stop future and the Server future resolve; the worker's reply value/time and shutdown drain are checked on the real worker future for every model path in virtual time; real-thread runs (graceful/forced, timeout, second stop, dropped future, paused, SIGTERM/SIGINT/SIGQUIT, the server thread held between the two halves of the stop handler) are judged by TLC on recorded events incl. service futures dropped unfinished. ServerHandles.tla: the server's own handle vector across worker replacements (Stop is sent through it) - model-checked, observed through hook H8 after every replacement in end-to-end scenarios with worker deaths before the stop; worker threads blocked by a non-yielding handler; the listener must be closed at completion (a client connecting at the instant the stop future resolves is refused); stop racing new connections; stop issued after completion; shutdown_timeout of 2 s / 3 s reached on the real clock; the worker thread stalled across shutdown ticks; the server on a plain Tokio runtime and with system_exit.",
     SRV_NOTE + " End-to-end runs use real time with generous bounds (forced stop must complete within 1.5 s; rejections are re-run before being believed).")
 
 RT_TECH = 'TLA+ design model (spec/rt/ActixRt.tla + RtProps.tla) checked exhaustively with TLC incl. liveness and NEG variants; randomized real-thread driver (harness/rt) records call-interval histories through the public API; TLC evaluates the same property predicates on every prefix of every recorded history (predicate-mode trace validation, spec/rt/ActixRtTrace.tla)'
